@@ -17,6 +17,8 @@ def obligations(tier):
     # heap/timer queue under allocation failure: only ptrheap_create is decided; the add/delete steps with failing
     # allocators did not fit (symbolic element count after the success/failure merge: > 28 GB) -- stated in DESIGN.md
     obs += [o for o in c13.heap_obligations(tier, True, "allocfail-") if o["name"].endswith("-n0-3") and "ptrheap-create" in o["name"]]
+    obs.append(dict(name="allocfail-asprintf", harness="asp.c", entry="h_asprintf", unwind=12, mmf=True, flags=["--memory-leak-check"], backends=["cadical"], timeout=1800 if tier == "thorough" else 280,
+                    claim="util/asprintf.c: measure, allocate exactly len+1, format; formatting or allocation failure => -1 and nothing leaked", bounds="formatted length 0..7", stubs=["vsnprintf -> scripted"]))
     extra = globals().get("more_obligations")
     if extra: obs += extra(tier)
     return obs
